@@ -456,7 +456,7 @@ class CostFunction_Chi2(CostFunction):
 
     @property
     def pointwise(self):
-        return self._cost_function_handle != self.chi2_covariance
+        return self._cost_function_handle not in (self.chi2_covariance, self.chi2_covariance_fast)
 
     @property
     def pointwise_version(self):
